@@ -159,7 +159,9 @@ struct Run {
   std::vector<std::pair<int64_t, int64_t>> stalls;          // (from, to) virtual-clock jumps during which the application did not run its loop
   struct CookieCtl { int64_t t; int server; int on; };
   std::vector<CookieCtl> cookie_ctl;
-  std::vector<ActiveEv> active_hist;                        // configured server list (indices, configuration order) over time
+  std::vector<ActiveEv> active_hist;
+  bool user_set_servers = false;                            // the application has set the server list explicitly (init option or setter)
+  int files_variant = 0; bool files_changed_since_init = false;   // C16: which rewrite of the system files is on the virtual disk                        // configured server list (indices, configuration order) over time
   int pick_kind(int64_t a) const;
   void read_effective();
   void set_servers_variant(int variant);
@@ -188,6 +190,7 @@ struct Run {
 };
 
 extern Run *g_run;
+std::string servers_csv(const std::vector<ServerSpec> &all, const std::vector<int> &idx);
 
 // white-box reads (peek.c)
 extern "C" {
@@ -201,6 +204,7 @@ struct peek_qinfo { unsigned short qid; long long ts_us; long long deadline_us; 
 int peek_queries(const ares_channel_t *ch, struct peek_qinfo *out, int cap);
 size_t peek_num_servers(const ares_channel_t *ch);
 int peek_channel_opts(const ares_channel_t *ch, long *tries, long *timeout_ms, long *maxtimeout_ms, long *ndots, long *rotate);
+size_t peek_full(const ares_channel_t *ch, char *out, size_t cap);
 }
 
 // allocator ledger
